@@ -7,17 +7,14 @@
    {csize; fdata}), NV.Bgzf.FlatRef (the flat-array reference: offset + window over
    D = concat of the frames' data, and [denote] : virtual position -> flat offset).
 
-   The pinned reader violates the property on two input classes (both reproduced on the real
-   crate, see known_findings.d/C02.json); the faithful model reproduces them
-   ([c02_seek_eof_refuted], [c02_direct_read_refuted]) and the positive theorem excludes
-   exactly those classes through [ops_ok]:
-     - seek-eof-stale-block: Seek to the end-of-file position unless the buffered block is an
-       empty block whose end names the end of the data ([seek_ok]);
-     - direct-read-at-eof-stale-len: Read n with n >= 65536 when the block is exhausted, no
-       frame is left and the last block read holds data ([stale_direct]); for ReadExact /
-       ReadExactStd the coarser side condition "n < 65536 or the file ends with an empty frame
-       (EOF marker)" is used.
-   Setting ReaderOps.eof_resets_block := true (the proposed repair) removes both. *)
+   ReaderOps takes a switch fx: fx = true is the reader of the current tree (after the fix:
+   commits b3c56a0, f83424c, 17d0b85), fx = false the reader as originally pinned.  The original
+   reader violated the property on two input classes (seek-eof-stale-block,
+   direct-read-at-eof-stale-len), reproduced on the real crate by this check before the repair;
+   the fx = false model reproduces them ([c02_old_seek_eof_refuted], [c02_old_direct_read_refuted],
+   [c02_old_full_statement_refuted]).  For the current reader the statement holds with no
+   exclusion ([c02_reader_refines_flat]); [c02_reader_refines_flat_either] is the common proof,
+   for both readers, with the two classes excluded through [ops_ok] when fx = false. *)
 From Coq Require Import List NArith Bool.
 From NV Require Import Bgzf.Vpos Bgzf.VposProofs Bgzf.Gzi Bgzf.ReaderOps Bgzf.FlatRef Bgzf.ReaderOpsProofs.
 Import ListNotations.
@@ -35,46 +32,45 @@ Print Assumptions vpos_order.
 
 (* For EVERY well-formed frame list f (any number of frames, empty frames anywhere, with or
    without trailing empty frame, every frame 1 <= csize, data <= 65536 bytes, file shorter than
-   2^48) and EVERY history of reader calls whose seeks name byte boundaries and which stays
-   outside the two known classes: the flat reference accepts the history, every call returns
-   what the flat reference returns, and after every call virtual_position() is Ok v with
-   denote f v = the flat offset. *)
+   2^48) and EVERY history of reader calls {read n, read_exact n, std read_exact n, fill_buf,
+   consume n, seek v, seek by uncompressed offset} whose seeks name byte boundaries: the flat
+   reference accepts the history, every call returns what the flat reference returns, and after
+   every call virtual_position() is Ok v with denote f v = the flat offset. *)
 Theorem c02_reader_refines_flat : forall f ops,
-  wf f -> total_csize f <= MAX_COMPRESSED_POSITION ->
-  ops_ok f (gzi_of f) (init f) ops ->
+  wf f -> total_csize f <= MAX_COMPRESSED_POSITION -> ops_valid f ops ->
   exists fl, frun f (mkF 0 0) ops = Some fl /\
-             Forall2 (agrees f) (run f (gzi_of f) (init f) ops) fl.
-Proof. exact reader_refines_flat. Qed.
+             Forall2 (agrees f) (run true f (gzi_of f) (init f) ops) fl.
+Proof. exact reader_refines_flat_repaired. Qed.
 Print Assumptions c02_reader_refines_flat.
 
-(* the statement without the exclusions is false for the pinned reader: *)
-Definition c02_reader_refines_flat_full_statement : Prop := forall f ops,
+(* both readers, the pinned one outside its two known classes *)
+Theorem c02_reader_refines_flat_either : forall fx f ops,
   wf f -> total_csize f <= MAX_COMPRESSED_POSITION ->
-  Forall (fun o => match o with
-                   | Seek v => exists j, denote f v = Some j
-                   | SeekU p => seeku_ok f p
-                   | _ => True end) ops ->
+  ops_ok fx f (gzi_of f) (init f) ops ->
   exists fl, frun f (mkF 0 0) ops = Some fl /\
-             Forall2 (agrees f) (run f (gzi_of f) (init f) ops) fl.
+             Forall2 (agrees f) (run fx f (gzi_of f) (init f) ops) fl.
+Proof. exact reader_refines_flat. Qed.
+Print Assumptions c02_reader_refines_flat_either.
 
-Theorem c02_seek_eof_refuted :
-  run wit_file (gzi_of wit_file) (init wit_file) [Read 5; Seek (pack 61 0); Read 5]
+(* the reader before the repair: the two classes, and the refutation of the full statement *)
+Theorem c02_old_seek_eof_refuted :
+  run false wit_file (gzi_of wit_file) (init wit_file) [Read 5; Seek (pack 61 0); Read 5]
   = [ (OBytes (Ok [104; 101; 108; 108; 111]), Ok (pack 33 0));
       (OPos (Ok (pack 61 0)), Ok (pack 0 0));
       (OBytes (Ok [104; 101; 108; 108; 111]), Ok (pack 33 0)) ].
 Proof. exact seek_eof_stale_witness. Qed.
-Print Assumptions c02_seek_eof_refuted.
+Print Assumptions c02_old_seek_eof_refuted.
 
-Theorem c02_direct_read_refuted :
-  run wit_noeof (gzi_of wit_noeof) (init wit_noeof) [Read 65536; Read 65536]
+Theorem c02_old_direct_read_refuted :
+  run false wit_noeof (gzi_of wit_noeof) (init wit_noeof) [Read 65536; Read 65536]
   = [ (OBytes (Ok [104; 101; 108; 108; 111]), Ok (pack 33 0));
       (OBytes (Ok [170; 170; 170; 170; 170]), Ok (pack 33 0)) ].
 Proof. exact direct_read_stale_witness. Qed.
-Print Assumptions c02_direct_read_refuted.
+Print Assumptions c02_old_direct_read_refuted.
 
-Theorem c02_full_statement_refuted : ~ c02_reader_refines_flat_full_statement.
-Proof. exact full_statement_refuted. Qed.
-Print Assumptions c02_full_statement_refuted.
+Theorem c02_old_full_statement_refuted : ~ old_full_statement.
+Proof. exact old_full_statement_refuted. Qed.
+Print Assumptions c02_old_full_statement_refuted.
 
 (* seeking by uncompressed offset through the file's gzi index lands on the same byte; the
    u16 conversion cannot fail unless the offset is the end of the data and the last frame is a
@@ -89,15 +85,15 @@ Print Assumptions c02_gzi.
    the denoted flat offsets; the numeric statement v1 <= v2 is checked on the implementation
    for every non-seek step but not proved here) *)
 Definition c02_tell_monotone_full_statement : Prop := forall f ops st o v1 v2,
-  wf f -> ops_ok f (gzi_of f) (init f) (ops ++ [o]) -> is_seek o = false ->
-  st = run_state f (gzi_of f) (init f) ops ->
-  virtual_position st = Ok v1 -> virtual_position (fst (step f (gzi_of f) st o)) = Ok v2 -> v1 <= v2.
+  wf f -> ops_valid f (ops ++ [o]) -> is_seek o = false ->
+  st = run_state true f (gzi_of f) (init f) ops ->
+  virtual_position st = Ok v1 ->
+  virtual_position (fst (step true f (gzi_of f) st o)) = Ok v2 -> v1 <= v2.
 
 Theorem c02_tell_monotone_partial : forall f ops,
-  wf f -> total_csize f <= MAX_COMPRESSED_POSITION ->
-  ops_ok f (gzi_of f) (init f) ops ->
+  wf f -> total_csize f <= MAX_COMPRESSED_POSITION -> ops_valid f ops ->
   forallb (fun o => negb (is_seek o)) ops = true ->
-  exists fl, Forall2 (agrees f) (run f (gzi_of f) (init f) ops) fl /\ nondecr 0 (map snd fl).
+  exists fl, Forall2 (agrees f) (run true f (gzi_of f) (init f) ops) fl /\ nondecr 0 (map snd fl).
 Proof. exact tell_monotone_flat. Qed.
 Print Assumptions c02_tell_monotone_partial.
 
@@ -111,22 +107,33 @@ Theorem c02_seek_then_read_partial : forall f s v j s1 x n,
 Proof. exact flat_seek_then_read. Qed.
 Print Assumptions c02_seek_then_read_partial.
 
-(* non-vacuity: a history with both seek forms and a gzi seek over a two-frame file satisfies
-   the hypotheses, and this is what it observes *)
-Example c02_example_ok :
+(* non-vacuity: a history with both seek forms, a seek to the end of file, 64 KiB reads at the
+   end and a gzi seek satisfies the hypotheses, and this is what it observes *)
+Example c02_example_valid :
   wf wit_file /\ total_csize wit_file <= MAX_COMPRESSED_POSITION /\
-  ops_ok wit_file (gzi_of wit_file) (init wit_file)
-         [Read 3; Seek (pack 0 5); FillBuf; Seek (pack 33 0); SeekU 2; ReadExact 3; Read 70000].
-Proof. exact example_ok. Qed.
+  ops_valid wit_file
+         [Read 3; Seek (pack 0 5); FillBuf; Seek (pack 61 0); Read 70000; SeekU 2; ReadExact 3; Read 70000].
+Proof. exact example_valid. Qed.
 
 Example c02_example_run :
-  run wit_file (gzi_of wit_file) (init wit_file)
-      [Read 3; Seek (pack 0 5); FillBuf; Seek (pack 33 0); SeekU 2; ReadExact 3; Read 70000]
+  run true wit_file (gzi_of wit_file) (init wit_file)
+      [Read 3; Seek (pack 0 5); FillBuf; Seek (pack 61 0); Read 70000; SeekU 2; ReadExact 3; Read 70000]
   = [ (OBytes (Ok [104; 101; 108]), Ok (pack 0 3));
       (OPos (Ok (pack 0 5)), Ok (pack 33 0));
       (OBytes (Ok []), Ok (pack 61 0));
-      (OPos (Ok (pack 33 0)), Ok (pack 61 0));
+      (OPos (Ok (pack 61 0)), Ok (pack 61 0));
+      (OBytes (Ok []), Ok (pack 61 0));
       (OPos (Ok 2), Ok (pack 0 2));
       (OBytes (Ok [108; 108; 111]), Ok (pack 33 0));
       (OBytes (Ok []), Ok (pack 61 0)) ].
 Proof. vm_compute. reflexivity. Qed.
+
+Example c02_example_repaired_witnesses :
+  run true wit_file (gzi_of wit_file) (init wit_file) [Read 5; Seek (pack 61 0); Read 5]
+  = [ (OBytes (Ok [104; 101; 108; 108; 111]), Ok (pack 33 0));
+      (OPos (Ok (pack 61 0)), Ok (pack 61 0));
+      (OBytes (Ok []), Ok (pack 61 0)) ] /\
+  run true wit_noeof (gzi_of wit_noeof) (init wit_noeof) [Read 65536; Read 65536]
+  = [ (OBytes (Ok [104; 101; 108; 108; 111]), Ok (pack 33 0));
+      (OBytes (Ok []), Ok (pack 33 0)) ].
+Proof. exact repaired_witnesses. Qed.
